@@ -719,6 +719,9 @@ func selfTest(prop string) map[string]interface{} {
 	}
 	applied, detected := 0, 0
 	var missed, skipped []string
+	// candidates: the stored, not superseded changes of this property; at most four of them, evenly spread over the rounds, are run
+	// (each costs one quick check of the property; the full corpus is exercised by tools/run-seeds.sh)
+	var cands []os.DirEntry
 	for _, e := range ents {
 		if !e.IsDir() || !strings.HasPrefix(e.Name(), prop+"-") {
 			continue
@@ -727,6 +730,17 @@ func selfTest(prop string) map[string]interface{} {
 		if strings.Contains(string(meta), "\"status\": \"superseded") {
 			continue
 		}
+		cands = append(cands, e)
+	}
+	available := len(cands)
+	if len(cands) > 4 {
+		var pick []os.DirEntry
+		for i := 0; i < 4; i++ {
+			pick = append(pick, cands[i*(len(cands)-1)/3])
+		}
+		cands = pick
+	}
+	for _, e := range cands {
 		scratch, _ := os.MkdirTemp("", "vq-selftest-")
 		cp := exec.Command("rsync", "-a", "--exclude", ".git", repo+"/", scratch+"/")
 		if out, err := cp.CombinedOutput(); err != nil {
@@ -759,7 +773,7 @@ func selfTest(prop string) map[string]interface{} {
 		os.RemoveAll(scratch)
 		os.RemoveAll(evd)
 	}
-	return map[string]interface{}{"seeds_applied": applied, "seeds_detected": detected, "seeds_missed": missed, "seeds_skipped": skipped,
+	return map[string]interface{}{"seeds_available": available, "seeds_applied": applied, "seeds_detected": detected, "seeds_missed": missed, "seeds_skipped": skipped,
 		"note": "must-fail corpus: each stored seeded change applied to a scratch copy of the current tree, quick check expected to alarm"}
 }
 
